@@ -333,7 +333,8 @@ static Verdict run_C05(const Scn &s) {
   Diff d = diff_files(B.F, F2, B.e.hmode);
   if (!d.any) return skipv("fault-changed-nothing");
   // a splice that yields the complete other file is a substitution by another authentic file, not an alteration
-  if (!B.G.empty() && F2 == B.G) return skipv("fault-produced-another-authentic-file");
+  // (also when, on top of that, only bytes that carry no information were changed)
+  if (!B.G.empty() && !diff_files(B.G, F2, B.e.hmode).informative) return skipv("fault-produced-another-authentic-file");
   Verdict v;
   v.case_hash = case_hash_faults(s);
   v.nontrivial = true;
